@@ -14,30 +14,31 @@ open Pysmi.Generated.Skeletons
 /-- . (scripts/mibdump.py) -/
 theorem pin_mibdumpScript : mibdumpScript = [
     "call:getopt.getopt", "except:getopt.GetoptError", "if", "call:sys.exc_info", "call:sys.exit(EX_USAGE)", "loop",
-    "if", "call:sys.exit(EX_OK)", "if", "call:sys.exit(EX_OK)", "if", "if", "call:opt[1].split", "if",
-    "call:mibSources.append", "if", "call:mibSearchers.append", "if", "call:mibStubs.append", "if",
-    "call:mibBorrowers.append", "if", "if", "if", "if", "if", "if", "if", "except:ValueError",
-    "call:sys.exit(EX_USAGE)", "if", "if", "if", "if", "if", "if", "if", "if", "if", "if", "call:os.path.abspath",
-    "call:os.path.dirname", "call:os.path.basename", "call:os.path.splitext", "if", "call:sys.exit(EX_USAGE)", "if",
-    "if", "call:sys.exit(EX_USAGE)", "if", "if", "if", "if", "if", "call:os.path.expanduser", "if",
-    "call:PyFileBorrower", "call:getReadersFromUrls", "call:PyFileSearcher", "loop", "call:searchers.append",
-    "call:PyPackageSearcher", "call:searchers.append", "call:StubSearcher", "call:PySnmpCodeGen", "call:PyFileWriter",
-    "call:PyFileWriter(dstDirectory).setOptions", "if", "if", "if", "if", "call:AnyFileBorrower",
-    "call:getReadersFromUrls", "call:AnyFileSearcher", "call:AnyFileSearcher(dstDirectory).setOptions",
-    "call:StubSearcher", "call:JsonCodeGen", "call:FileWriter", "call:FileWriter(dstDirectory).setOptions", "if",
-    "if", "if", "if", "call:NullCodeGen", "call:StubSearcher", "call:AnyFileBorrower", "call:getReadersFromUrls",
-    "call:CallbackWriter", "call:sys.exit(EX_USAGE)", "if", "call:MibCompiler", "call:SmiV1CompatParser",
-    "call:mibCompiler.addSources", "call:getReadersFromUrls", "call:mibCompiler.addSearchers",
-    "call:mibCompiler.addBorrowers", "call:mibCompiler.compile", "if", "call:mibCompiler.buildIndex",
-    "except:error.PySmiError", "call:sys.exc_info", "call:sys.exit(EX_SOFTWARE)", "if", "if", "call:processed.values",
-    "if", "call:processed.values", "call:sys.exit(exitCode)"] := by decide
+    "if", "call:sys.exit(EX_OK)", "if", "call:sys.exit(EX_OK)", "if", "if", "call:opt[1].split",
+    "except:error.PySmiError", "call:sys.exc_info", "call:sys.exit(EX_USAGE)", "if", "call:mibSources.append", "if",
+    "call:mibSearchers.append", "if", "call:mibStubs.append", "if", "call:mibBorrowers.append", "if", "if", "if",
+    "if", "if", "if", "if", "except:ValueError", "call:sys.exit(EX_USAGE)", "if", "if", "if", "if", "if", "if", "if",
+    "if", "if", "if", "call:os.path.abspath", "call:os.path.dirname", "call:os.path.basename",
+    "call:os.path.splitext", "if", "call:sys.exit(EX_USAGE)", "call:getReadersFromUrls", "except:error.PySmiError",
+    "call:sys.exc_info", "call:sys.exit(EX_USAGE)", "if", "if", "call:sys.exit(EX_USAGE)", "if", "if", "if", "if",
+    "if", "call:os.path.expanduser", "if", "call:PyFileBorrower", "call:getReadersFromUrls", "call:PyFileSearcher",
+    "loop", "call:searchers.append", "call:PyPackageSearcher", "call:searchers.append", "call:StubSearcher",
+    "call:PySnmpCodeGen", "call:PyFileWriter", "call:PyFileWriter(dstDirectory).setOptions", "if", "if", "if", "if",
+    "call:AnyFileBorrower", "call:getReadersFromUrls", "call:AnyFileSearcher",
+    "call:AnyFileSearcher(dstDirectory).setOptions", "call:StubSearcher", "call:JsonCodeGen", "call:FileWriter",
+    "call:FileWriter(dstDirectory).setOptions", "if", "if", "if", "if", "call:NullCodeGen", "call:StubSearcher",
+    "call:AnyFileBorrower", "call:getReadersFromUrls", "call:CallbackWriter", "call:sys.exit(EX_USAGE)", "if",
+    "call:MibCompiler", "call:SmiV1CompatParser", "call:mibCompiler.addSources", "call:getReadersFromUrls",
+    "call:mibCompiler.addSearchers", "call:mibCompiler.addBorrowers", "call:mibCompiler.compile", "if",
+    "call:mibCompiler.buildIndex", "except:error.PySmiError", "call:sys.exc_info", "call:sys.exit(EX_SOFTWARE)", "if",
+    "if", "call:processed.values", "if", "call:processed.values", "call:sys.exit(exitCode)"] := by decide
 
 /-- . (scripts/mibcopy.py) -/
 theorem pin_mibcopyScript : mibcopyScript = [
     "call:getopt.getopt", "except:getopt.GetoptError", "call:sys.exit(EX_USAGE)", "loop", "if",
     "call:sys.exit(EX_OK)", "if", "call:sys.exit(EX_OK)", "if", "if", "if", "call:opt[1].split", "if",
-    "call:mibSources.append", "if", "if", "if", "if", "call:sys.exit(EX_USAGE)", "call:os.path.abspath",
-    "call:inputMibs.pop", "if", "call:os.path.exists", "call:os.path.isdir", "call:sys.exit(EX_USAGE)",
+    "call:mibSources.append", "if", "if", "if", "if", "if", "call:sys.exit(EX_USAGE)", "call:os.path.abspath",
+    "call:inputMibs.pop", "if", "call:os.path.exists", "call:os.path.isdir", "call:sys.exit(EX_USAGE)", "if",
     "call:os.makedirs", "except:OSError", "call:JsonCodeGen", "call:SmiV1CompatParser", "call:CallbackWriter",
     "call:MibCompiler", "call:mibCompiler.addSources", "call:FileReader", "call:getReadersFromUrls",
     "call:mibCompiler.compile", "except:error.PySmiError", "call:sys.exc_info", "call:sys.exit(EX_SOFTWARE)", "loop",
@@ -46,7 +47,7 @@ theorem pin_mibcopyScript : mibcopyScript = [
     "call:os.path.isfile", "call:os.path.abspath", "call:os.path.dirname", "call:os.path.basename",
     "call:os.path.abspath", "call:os.walk", "loop", "call:getMibRevision", "except:error.PySmiError", "if", "if",
     "call:shortenPath", "if", "call:getMibRevision", "except:error.PySmiError", "if", "if", "if", "if",
-    "call:shortenPath", "if", "call:shutil.copy", "except:Exception", "if", "if", "call:shortenPath", "if",
+    "call:shortenPath", "if", "if", "call:shutil.copy", "except:Exception", "if", "if", "call:shortenPath", "if",
     "call:shortenPath", "if", "call:sys.exit(EX_OK)"] := by decide
 
 end Pysmi.Pins.SkelC20
